@@ -7,7 +7,8 @@ here="$(cd "$(dirname "$0")/.." && pwd)"
 wt=/tmp/seeded-wt.$$
 git -C /repo worktree add --detach -q $wt HEAD || exit 2
 trap 'git -C /repo worktree remove --force $wt' EXIT
-dirs="$@"; [ -z "$dirs" ] && dirs=$(ls -d $here/seeded/*/ 2>/dev/null)
+full=0; dirs="$@"; [ -z "$dirs" ] && { full=1; dirs=$(ls -d $here/seeded/*/ 2>/dev/null); }
+[ $full = 1 ] && exec > >(tee $here/seeded/RESULTS.txt)
 for d in $dirs; do
   d=$(realpath ${d%/}); name=$(basename $d)
   [ -f $d/patch.diff ] || continue
